@@ -13,6 +13,10 @@ func main() {
 	switch os.Args[1] {
 	case "dump":
 		cmdDump(os.Args[2:])
+	case "replay":
+		cmdReplay(os.Args[2:])
+	case "sweep":
+		cmdSweep(os.Args[2:])
 	case "check":
 		cmdCheck(os.Args[2:])
 	default:
